@@ -649,3 +649,6 @@ CHECKS["C04"]["assumptions"] = ["the TLS listeners are exercised by the black-bo
 CHECKS["C11"]["required_classes"]["all"] += ["free-running:logins-racing-set-admin-of-the-same-user"]
 CHECKS["C12"]["required_classes"]["all"] += ["work-area-holds-leftovers-of-killed-writers"]
 CHECKS["C18"]["required_classes"]["all"] += ["reload:no-sets", "reload:agent-started-with-do-check=false"]
+CHECKS["C19"]["required_classes"]["all"] += ["hooks-dir-world-writable-with-sticky-or-setgid"]
+CHECKS["C20"]["required_classes"]["all"] += ["negative-reply-with-OK-in-a-later-fragment"]
+CHECKS["C20"]["required_classes"]["all"] += ["host-process-receives-signals-while-the-module-runs"]
